@@ -4,6 +4,7 @@
 package main
 
 import (
+	"runtime"
 	"bytes"
 	"io"
 	"strconv"
@@ -136,9 +137,63 @@ func readAll(s []byte, script []entry) string {
 	return "chunks=" + wire.PrintList(chunks) + " err=" + errClass(err)
 }
 
+// readAllAlloc is readAll with the bytes allocated by each ReadData call measured (TotalAlloc is monotone and
+// not affected by collections; this process runs one goroutine). A call may allocate the chunk it announces
+// plus a small constant; "over" counts the calls that allocated more than that.
+func readAllAlloc(s []byte, script []entry) string {
+	r := &scriptReader{rem: s, script: script}
+	var chunks [][]byte
+	var err error
+	over, worst := 0, int64(0)
+	var m0, m1 runtime.MemStats
+	const slack = 64 << 10
+	for {
+		var p []byte
+		runtime.ReadMemStats(&m0)
+		p, err = encapsulation.ReadData(r)
+		runtime.ReadMemStats(&m1)
+		d := int64(m1.TotalAlloc - m0.TotalAlloc)
+		bound := int64(len(p)) + slack
+		if err != nil && err != io.EOF {
+			bound = 1<<20 + slack // the largest announcement a three-byte prefix can make
+		}
+		if d > bound {
+			over++
+			if d-bound > worst {
+				worst = d - bound
+			}
+		}
+		if err != nil {
+			break
+		}
+		chunks = append(chunks, p)
+	}
+	cs := make([]string, len(chunks))
+	for i, c := range chunks {
+		cs[i] = "x" + wire.Hex(c)
+	}
+	res := "chunks=" + wire.PrintList(cs) + " err=" + errClass(err) + " over=" + strconv.Itoa(over)
+	if over > 0 {
+		res += " worst=" + strconv.FormatInt(worst, 10)
+	}
+	return res
+}
+
 func main() {
 	wire.Loop(func(a []string) string {
 		switch a[0] {
+		case "alloc":
+			b, ok := encodeItems(a[1])
+			if !ok {
+				return "E:toolong"
+			}
+			return readAllAlloc(b, parseScript(a[2]))
+		case "allocd":
+			s, err := wire.Payload(a[1])
+			if err != nil {
+				panic(err)
+			}
+			return readAllAlloc(s, parseScript(a[2]))
 		case "enc":
 			b, ok := encodeItems(a[1])
 			if !ok {
